@@ -18,6 +18,7 @@ def main():
     a = ap.parse_args()
     tier = a.tier if a.tier in ("quick", "thorough") else "quick"
     seed = int(os.environ.get("VERIF_SEED", "0") or 0)
+    common.limit_memory(12)
     mod = importlib.import_module("props." + a.pid.lower())
     res = Result(a.pid, tier, seed)
     if a.replay:
